@@ -160,6 +160,11 @@ def gen_case(rng, tier, index):
                 else:
                     a["position"] = bad_position(rng, fld)
                 case["faults"].append(f)
+        elif rng.random() < 0.12:
+            # integral-valued float / numpy integer position: the statement does not say whether such a
+            # call is valid - but if it is accepted the record must still be well-formed
+            a["position"] = rng.choice([float(a["position"]), np.int64(a["position"]), np.float64(a["position"])])
+            case["either"] = "position"
         case["args"], case["kw"] = enc(a), enc(kw)
     elif entry == "reagent_distribution":
         s0 = rng.randint(1, 40)
@@ -213,6 +218,10 @@ def gen_case(rng, tier, index):
                     if kw.get("exclude_wells") and parts[2].startswith("dst"):
                         kw["exclude_wells"] = None
                 case["faults"].append(f)
+        elif rng.random() < 0.1:
+            which = rng.choice(["src_start", "src_end", "dst_start", "dst_end"])
+            a[which] = rng.choice([float(a[which]), np.int64(a[which])])
+            case["either"] = which
         case["args"], case["kw"] = enc(a), enc(kw)
     elif entry == "comment":
         r = rng.random()
@@ -228,7 +237,11 @@ def gen_case(rng, tier, index):
             case["faults"].append("sep:comment")
         case["args"] = enc({"comment": t})
     elif entry == "wash":
-        if rng.random() < 0.6:
+        r_ = rng.random()
+        if r_ < 0.1:
+            case["args"] = enc({"scheme": rng.choice([1.0, 2.0, 4.0, np.int64(3)])})
+            case["either"] = "scheme"
+        elif r_ < 0.6:
             case["args"] = {"scheme": rng.choice([1, 2, 3, 4])}
         else:
             case["args"] = enc({"scheme": rng.choice([0, 5, -1, 9, "1", "W1", None, 2.5])})
@@ -240,7 +253,10 @@ def gen_case(rng, tier, index):
     elif entry == "set_diti":
         case["prefix"] = rng.choice(["empty", "break", "script_break", "aspirate", "comment", "wash", "set_diti"])
         r = rng.random()
-        if r < 0.75:
+        if r < 0.08:
+            case["args"] = enc({"index": rng.choice([2.0, np.int64(3), 1.0])})
+            case["either"] = "index"
+        elif r < 0.75:
             case["args"] = {"index": rng.choice([0, 1, 2, 5, 12, 255])}
         else:
             case["args"] = enc({"index": rng.choice([-1, 1.5, "2", None, -7, math.nan])})
@@ -359,7 +375,15 @@ def run_case(ctx, case):
         ctx.check("raising_call_appends_nothing", list(wl) == before, det, key=key)
         ctx.case(case, True)
         return
-    if not ctx.check("representable_call_is_accepted", exc is None, det):
+    if case.get("either"):
+        ctx.count("ambiguous_validity:" + entry)
+        if exc is not None:
+            ctx.count("ambiguous_validity_rejected:" + entry)
+            ctx.check("raising_call_appends_nothing", list(wl) == before, det)
+            ctx.case(case, True)
+            return
+        ctx.count("ambiguous_validity_accepted:" + entry)
+    elif not ctx.check("representable_call_is_accepted", exc is None, det):
         ctx.case(case, nontrivial)
         return
     # ---- every appended record conforms to the grammar
